@@ -492,6 +492,9 @@ class Facts:
         for b in self.bodies:
             if b.kind == 'Closure' and b.parent:
                 self.children.setdefault(b.parent, []).append(b)
+        # helper functions (absent from the baseline) whose body was inlined into their callers: their standalone body has no
+        # calling context; rules that sweep whole files skip them (the inlined copies are analysed in context)
+        self.inlined_paths = {cp for b in self.bodies for cp in b.raw.get('inlined', [])}
         # closures created by an inlined helper now belong to the body it was inlined into
         for b in self.bodies:
             for cp in b.raw.get('inlined', []):
